@@ -148,3 +148,25 @@ theorem fmod_neg_bounds (a : Int) {b : Int} (hb : b < 0) : b < Int.fmod a b ∧ 
     have hnb : ¬ (0 ≤ b) := by omega
     simp only [hnb, hd, or_self, if_false]; omega
 end Py
+
+/-! ### loops (for the translator's accumulator-loop fragment) -/
+namespace Py
+
+/-- the outcome of one loop iteration / of a whole loop: fall through with a new state, or `return` -/
+inductive Loop (σ ρ : Type) where
+  | cont (s : σ)
+  | ret (r : ρ)
+
+/-- `for i in range(lo, lo + n): body` with loop state `s`; stops at the first `return` -/
+def forRange {σ ρ : Type} (lo n : Nat) (s : σ) (f : Nat → σ → Loop σ ρ) : Loop σ ρ :=
+  match n with
+  | 0 => .cont s
+  | n + 1 =>
+    match f lo s with
+    | .ret r => .ret r
+    | .cont s' => forRange (lo + 1) n s' f
+
+/-- `seq[i]` for an index the loop guarantees to be in range -/
+def seqAt (l : List Int) (i : Nat) : Int := l.getD i 0
+
+end Py
